@@ -7,9 +7,10 @@ import runmon
 
 
 def run(chk):
-    runmon.monitor_run(chk, chk.tier)
+    if not chk.parallel(os.path.abspath(__file__), runmon.parts(chk.tier), post_merge=runmon.post_merge):
+        runmon.monitor_run(chk, chk.tier)
     keep = ('one-truthful-reply', 'reboot-needs-consent', 'run-explored')
-    chk.obligations = [o for o in chk.obligations if o.name in keep]
+    chk.obligations = [o for o in chk.obligations if o.name in keep or o.name.startswith('part:')]
     chk.bounds.update({'run loop iterations': 2, 'control requests': '1 (quick) / 2 (thorough)', 'pending polls per future': 1})
     chk.assumptions += [
         'interleavings = every order in which the select! arms (timer, control channel, running check, reboot timers) may become ready, with each future allowed to be pending once and the arm polling order permuted; the real select!/Fuse/join code of the crate MIR is executed',
